@@ -3,6 +3,7 @@ CONSTANTS Streams <- Huge
   ReadMax = 2048
   MaxReads = 0
   Fails <- NoFail
+  Swaps <- NoSwap
   Cuts <- HugeCutsC
   D = 0
 INIT Init
